@@ -1,10 +1,109 @@
 (* C10 - Optimisation histories survive JSON round-trips.
-   Only statements, closed by `exact`, each followed by Print Assumptions.
-   Model: Serial/HistoryCodec.v; proofs: Serial/HistoryCodecProofs.v. *)
-From Coq Require Import String List Bool.
+   Only statements, closed by `exact` (short glue), each followed by Print Assumptions.
+   Model: Serial/HistoryCodec.v; proofs: Serial/HistoryCodecProofs.v.
+
+   The recursion of the Python coders is modelled with an explicit depth budget: [None] = the
+   call raises (RecursionError; AttributeError when the encoder meets a uid string where it needs
+   an object).  The round-trip theorems hold for EVERY budget for which the calls return;
+   [C10_decode_total] / [C10_encode_total] say when they do. *)
+From Coq Require Import String List Bool Arith.
 From GolemV Require Import Serial.HistoryCodec Serial.HistoryCodecProofs.
 Import ListNotations.
 
+(* 1. loading what was saved gives an isomorphic history: same objective, tuning result and
+   directory, generation numbers / labels / metadata / ordered members, archive snapshots, and
+   for every individual of the whole lineage (intermediate ancestors included) uid, fitness,
+   graph, metadata, native generation, parent operator (type, operators, uid, ordered parents),
+   with the same sharing of objects; and the loaded history has one object per uid *)
+Theorem C10_decode_encode_iso : forall H d d' E H',
+  uid_faithful H -> pool_closed H ->
+  encode_history d H = Some E -> decode_history d' E = Some H' ->
+  iso H H' /\ uid_faithful H'.
+Proof. exact decode_encode_iso. Qed.
+Print Assumptions C10_decode_encode_iso.
+
+(* 2. saving the loaded history reproduces the same JSON tree *)
+Theorem C10_encode_idempotent : forall H d d' E H',
+  uid_faithful H -> pool_closed H ->
+  encode_history d H = Some E -> decode_history d' E = Some H' ->
+  encode_history d H' = Some E.
+Proof. exact encode_idempotent. Qed.
+Print Assumptions C10_encode_idempotent.
+
+(* the encoder cannot tell isomorphic histories apart (any histories, no guard) *)
+Theorem C10_encode_respects_iso : forall H H' d, iso H H' -> encode_history d H = encode_history d H'.
+Proof. exact encode_respects_iso. Qed.
+Print Assumptions C10_encode_respects_iso.
+
+(* the JSON of a faithful pool-closed history mentions only uids of its pool, each once; this is
+   what the driver's [guard_b] tests on the JSON actually written ([e_closed_b] decides it) *)
+Theorem C10_encode_closed : forall H d E,
+  uid_faithful H -> pool_closed H -> encode_history d H = Some E -> e_closed_b E = true.
+Proof. intros H d E UF PCL Henc. apply e_closed_b_iff. exact (encode_closed H d E UF PCL Henc). Qed.
+Print Assumptions C10_encode_closed.
+
+(* loading needs a recursion depth of at most (pool size + 1), for any JSON whatsoever *)
+Theorem C10_decode_total : forall E d, length (e_pool E) < d -> decode_history d E <> None.
+Proof. exact decode_total. Qed.
+Print Assumptions C10_decode_total.
+
+(* saving a history built by the constructors (parents are objects created before the child)
+   needs a depth of at most (largest member reference + 1) *)
+Theorem C10_encode_total : forall H d, heap_ordered (h_heap H) ->
+  (forall r, In r (all_members (h_gens H)) -> r < d) -> encode_history d H <> None.
+Proof. exact encode_total. Qed.
+Print Assumptions C10_encode_total.
+
+(* 3. every key of LEGACY_CLASS_PATHS resolves (class table, then module-prefix table) to a
+   class of the current tree; the driver compares both tables with serializer.py on every run
+   and imports every target *)
 Theorem C10_legacy_paths : forall k v, In (k, v) LEGACY_CLASS_PATHS -> resolves_to_current k = true.
 Proof. exact legacy_paths. Qed.
 Print Assumptions C10_legacy_paths.
+
+(* full statement, refuted by the tree as it is:
+     forall k v, In (k, v) LEGACY_MODULE_PATHS -> legacy_module_map k = v /\ In v CURRENT_MODULES
+   proved for every entry but fedot.core.utilities -> golem.core.utilities (no such module) *)
+Theorem C10_legacy_module_paths_partial : forall k v,
+  In (k, v) LEGACY_MODULE_PATHS -> k <> "fedot.core.utilities"%string ->
+  legacy_module_map k = v /\ In v CURRENT_MODULES.
+Proof. exact legacy_module_paths_partial. Qed.
+Print Assumptions C10_legacy_module_paths_partial.
+
+Theorem C10_legacy_utilities_refuted :
+  exists k v, In (k, v) LEGACY_MODULE_PATHS /\ ~ In (legacy_module_map k) CURRENT_MODULES.
+Proof. exact legacy_utilities_refuted. Qed.
+Print Assumptions C10_legacy_utilities_refuted.
+
+(* 4. boundary of 1 and 2: the history W (a parent WITH native generation that is in no
+   generation, shared by two members) is uid-faithful but not pool-closed; its JSON lacks the
+   parent, loading builds one MISSING_INDIVIDUAL placeholder per reference: not isomorphic
+   (payload lost), two objects for one uid, and saving again gives a different JSON *)
+Theorem C10_missing_parent_refuted :
+  uid_faithful W /\ ~ pool_closed W /\
+  encode_history 5 W = Some W_json /\ decode_history 5 W_json = Some W_loaded /\
+  ~ iso W W_loaded /\ ~ uid_faithful W_loaded /\ encode_history 5 W_loaded <> Some W_json.
+Proof. exact missing_parent_refuted. Qed.
+Print Assumptions C10_missing_parent_refuted.
+
+(* 5. per-individual dumps: the individual loaded from its dump equals the in-memory one in every
+   field (parents by uid), and saving it again gives the dump *)
+Theorem C10_dump_roundtrip : forall h r,
+  dump_holds_b h r (dec_ind (enc_ind h r)) = true /\ enc_indv [] (dec_ind (enc_ind h r)) = enc_ind h r.
+Proof. intros h r. split; [apply dump_roundtrip|apply dump_reencode]. Qed.
+Print Assumptions C10_dump_roundtrip.
+
+(* non-vacuity: a history with a shared parent and an intermediate ancestor satisfies the
+   hypotheses of 1 and 2, is saved and loaded within a budget of 4, and the guard is true *)
+Example C10_guard_satisfiable :
+  uid_faithful X /\ pool_closed X /\ heap_ordered (h_heap X) /\
+  (exists E H', encode_history 4 X = Some E /\ decode_history 4 E = Some H' /\ length (e_pool E) = 3 /\
+                iso_b X H' = true /\ e_closed_b E = true).
+Proof.
+  split; [exact X_faithful|]. split; [exact X_closed|]. split; [exact X_ordered|].
+  eexists. eexists. split; [vm_compute; reflexivity|]. split; [vm_compute; reflexivity|].
+  split; [reflexivity|]. split; vm_compute; reflexivity.
+Qed.
+
+Example C10_legacy_tables_nonempty : length LEGACY_CLASS_PATHS = 8 /\ length LEGACY_MODULE_PATHS = 10.
+Proof. split; reflexivity. Qed.
